@@ -11,6 +11,11 @@ NOTES = ("Contract-based deductive verification. Each check extracts the real fu
          "otherwise labelled bounded and not counted) discharge every obligation. Exit 2 = undecided (lost anchor / unsupported construct / solver limit), never an alarm.")
 
 CLAIMS = {
+    "C18": dict(
+        technique="Verus contract on the extracted real Members::remove_member / MemberState::{new,is_ring0} (maps of any size); Kani inductive transition contracts on the extracted add_member / add_rtt / recalculate_rings / ring0 (bounded state, labelled bounded); replay search on the real crate",
+        text="remove_member, MemberState::new and is_ring0 are proved unbounded in Verus against the newest-identity statement. add_member, add_rtt/recalculate_rings and ring0 use closures Verus cannot take; they are checked by Kani as inductive steps from an arbitrary state with <=2 members (history length unbounded, state size bounded) and are reported as bounded stand-ins, not as proved.",
+        note="Assumed: std BTreeMap contract; Kani unit replaces BTreeMap/CircularBuffer/ActorId/SocketAddr/Timestamp by small stand-ins (listed in evidence). SWIM premise: live peers do not share an address; down notifications carry the identity's own address.",
+    ),
     "C12": dict(
         technique="Verus function contracts on the extracted real klukai-client SubscriptionStream::{handle_change,handle_eoq} + verified driver (inductive consecutive-ids statement)",
         text="Unbounded proof (all u64 ids, all event sequences) of the client-library clause: an event is accepted iff its id is exactly last+1, a gap is reported as MissedChange{expected,got} and leaves the resume point unchanged. The server-side clause (catch-up vs. live races) is concurrent async code and is explicitly not decided.",
@@ -48,5 +53,4 @@ NOT_APPLICABLE = {
     "C14": "check not built yet in this round (planned: DESIGN.md §5/C14)",
     "C16": "check not built yet in this round (planned: DESIGN.md §5/C16)",
     "C17": "check not built yet in this round (planned: DESIGN.md §5/C17)",
-    "C18": "check not built yet in this round (planned: DESIGN.md §5/C18)",
 }
